@@ -16,10 +16,10 @@ def post(t, op, st):
 
 
 def replay(case):
-    if case.get("driver") == "run":
-        from .. import runfam
+    if case.get("driver") in ("run", "scaled"):
+        from .. import runcheck
 
-        return runfam.replay(PROP, case)
+        return runcheck.replay(PROP, case)
     return bfs.replay_case(MOD, case)
 
 
